@@ -133,6 +133,22 @@ func derive(r *Rng, doc []byte) []byte {
 			}
 		}
 	}
+	if r.Chance(0.10) {
+		// upper-case tag names (the renderer lower-cases them into a scratch buffer)
+		for i := 0; i+1 < len(doc); i++ {
+			if doc[i] == '<' {
+				j := i + 1
+				if doc[j] == '/' {
+					j++
+				}
+				for ; j < len(doc) && (doc[j] >= 'a' && doc[j] <= 'z' || doc[j] >= 'A' && doc[j] <= 'Z'); j++ {
+					if r.Chance(0.7) && doc[j] >= 'a' {
+						doc[j] -= 'a' - 'A'
+					}
+				}
+			}
+		}
+	}
 	if r.Chance(0.15) && len(doc) > 1 {
 		doc = doc[:r.Intn(len(doc))]
 	}
@@ -190,7 +206,7 @@ var inlineFrags = []string{
 	"<span class=\"x\">", "</span>", "<!-- c -->", "<?php ?>", "<![CDATA[x]]>", "<!DOCTYPE x>", "&amp;", "&#35;", "&#x22;", "&nosuch;",
 	"\\*not\\*", "\\", "a  ", "a\\", "[](", "[a](b", "[a]: not def", "*a **b* c**", "__a__b__", "a * b * c",
 	"<a href=\"x\"", "<script>x</script>", "[x](/u\\)y)", "<b>", "trailing\\", "x`y``z`", "[[nested]](/u)", "![[a]](/u)",
-	"&copy;", "\t tab", "**", "_", "[", "]", "![", "<", ">", "1. x", "- y", "# z", "> q", "```", "~~~", "---", "===",
+	"&copy;", "\t tab", "<DIV>", "<Script>x</Script>", "<TITLE>t</TITLE>", "<TextArea>", "</XMP>", "<IFRAME src=x>", "<Style>", "<NoEmbed>", "<A HREF=\"x\">", "<PlainText>", "**", "_", "[", "]", "![", "<", ">", "1. x", "- y", "# z", "> q", "```", "~~~", "---", "===",
 }
 
 var refLabels = []string{"foo", "Foo Bar", "bar", "ẞ", "a b", "x"}
@@ -278,7 +294,7 @@ func blockFrag(r *Rng, depth int) []string {
 		}
 		return out
 	case x < 49: // HTML blocks
-		switch r.Intn(7) {
+		switch r.Intn(9) {
 		case 0:
 			return []string{"<script>", "var x = '*a*';", "", "</script> tail"}
 		case 1:
@@ -291,6 +307,10 @@ func blockFrag(r *Rng, depth int) []string {
 			return []string{"<![CDATA[", "x", "]]>"}
 		case 5:
 			return []string{"<div class=\"a\">", "*text*", "</div>"}
+		case 6:
+			return []string{r.Pick([]string{"<TITLE>", "<XMP>", "<Style>", "<IFRAME>", "<NOFRAMES>", "<Textarea>"}), "*x* <Script>y", r.Pick([]string{"</TITLE>", "</xmp>", "</STYLE>", ""})}
+		case 7:
+			return []string{"<DIV CLASS=\"a\">", "<P>text <B>b</B>", "</DIV>"}
 		default:
 			return []string{"<a href=\"x\">", "b"}
 		}
